@@ -5,11 +5,12 @@ from harness.common.rng import Rng
 from harness.common import sim, usbref
 
 PROP = "C33"
-LEAN_MODULES = ["LunaVerif.Props.C33", "LunaVerif.Lemmas.C33Fairness"]
+LEAN_MODULES = ["LunaVerif.Props.C33", "LunaVerif.Lemmas.C33Fairness", "LunaVerif.Lemmas.C33NoIdle"]
 DRIVER = "Driver/C33.lean"
 REQUIRED_THEOREMS = ["tx_stream_is_input_with_idle_replaced", "scrambler_hold_iff_skp_word",
                      "skp_debt_accounting", "debt_counter_overflow_boundary", "link_layer_idle_mux_guarantees_env",
-                     "ctc_bounded_fairness", "ctc_bounded_fairness_bucket"]
+                     "ctc_bounded_fairness", "ctc_bounded_fairness_bucket", "no_idle_debt_counter_wraps",
+                     "no_idle_counter_is_mod_8", "idle_every_178_not_enough"]
 RULE = ("cases = DUT (CTCSkipInserter co-simulated against the Lean model; tx half of USB3PhysicalLayer with a "
         "PIPEInterface, monitor only) x traffic mode x seed; traffic = link-layer grammar: bursts (link commands, "
         "header packets, data packets up to 1056 bytes, training sets with COM, random words incl. all-zero words "
@@ -32,7 +33,8 @@ ASSUMPTIONS = ["can_send_skip = 1 only in cycles in which the word offered on th
                "words carry 4 symbols"]
 PARTIAL = ("'often enough' is proved as bounded fairness: with an idle opportunity in every W <= 177 valid words (or "
            "the leaky-bucket condition, K <= 530) the debt never wraps, stays <= (707+4W)/354 <= 3 sets and "
-           "floor(n/354) - B <= SKP sets sent <= floor(n/354) for every stream from reset. Not covered: that the "
+           "floor(n/354) - B <= SKP sets sent <= floor(n/354) for every stream from reset (conditions necessary: "
+           "no_idle_debt_counter_wraps, idle_every_178_not_enough). Not covered: that the "
            "link layer's arbiter actually meets that condition (it offers no idle during training-set "
            "transmission, where the counter wraps as coded; link-layer traffic shaping is outside this property's "
            "modules). The scrambler itself is C31; here only hold = sending_skip is covered (by the "
